@@ -193,8 +193,8 @@ def near_boundary(ctx, ncols, rows, ntok, ptol):
     size = max(gen.diameter(V), float(np.max(np.abs(V))), 1e-300)
     if not (np.isfinite(s1) and np.isfinite(s2)):
         return False  # nan normal: np.isclose is False whatever the tolerance, no boundary
-    # the two sides of each np.isclose differ between model and implementation by rounding only (~1e-15*size)
-    return abs(s1) < 1e-9 or abs(s2) < 1e-11 * size
+    # the two sides of each np.isclose differ between model and implementation by rounding only (~1e-15*size, size = largest |coordinate|)
+    return abs(s1) < 1e-9 or abs(s2) < 1e-12 * size
 
 
 def eval_polygon(ctx, case):
@@ -291,7 +291,9 @@ def polygon_cases(ctx, n_simple, n_cross, n_other):
     rng = ctx.rng
     for _ in range(n_simple):
         p2, info = gen.c15_simple_polygon(rng)
-        mode = ["n2", "xy", "xyz0", "random", "random", "random"][int(rng.integers(6))]
+        mode = ["n2", "xy", "xyz0", "random", "random", "random", "far", "far"][int(rng.integers(8))]
+        if mode == "far" and rng.random() < 0.7:   # the sweep is most fragile on stars / spirals far from the origin
+            p2, info = gen.c15_simple_polygon(rng, kind=["star", "spiral"][int(rng.integers(2))])
         case = {"kind": "polygon", "expect": "accept", "why": "simple", "p2": p2.tolist(), "info": info}
         if mode == "n2":
             sc = 1.0 if rng.random() < 0.5 else float(10 ** rng.uniform(-3, 3))
@@ -763,7 +765,8 @@ def curved_cases(ctx, n):
         combos.append(["negative"] * k)
         combos.append(["zero"] * k)
         for c in combos:
-            yield curved_case(ctx, rng, cls, [val(x) for x in c], c)
+            for ctype in (["ndarray", "list", "tuple", "default"] if c == ["positive"] * k else [None]):
+                yield curved_case(ctx, rng, cls, [val(x) for x in c], c, ctype)
     for _ in range(n):
         cls = list(CURVED)[int(rng.integers(4))]
         c = [["positive", "positive", "positive", "zero", "negative", "nan"][int(rng.integers(6))]
@@ -771,8 +774,8 @@ def curved_cases(ctx, n):
         yield curved_case(ctx, rng, cls, [val(x) for x in c], c)
 
 
-def curved_case(ctx, rng, cls, params, kinds):
-    ctype = ["ndarray", "ndarray", "list", "tuple", "default"][int(rng.integers(5))]
+def curved_case(ctx, rng, cls, params, kinds, ctype=None):
+    ctype = ctype or ["ndarray", "ndarray", "list", "tuple", "default"][int(rng.integers(5))]
     center = None if ctype == "default" else (rng.normal(size=3) * float(np.exp(rng.uniform(-2, 4)))).tolist()
     valid = all(k == "positive" for k in kinds)
     ctx.count("curved:%s:%s" % (cls, "valid" if valid else "invalid"))
@@ -795,15 +798,27 @@ def eval_case(ctx, case):
 def is_simple_cases(ctx, n):
     rng = ctx.rng
     for i in range(n):
-        if i % 2 == 0:
-            p2, info = gen.c15_simple_polygon(rng)
+        far = False
+        if i % 5 in (0, 2, 3):
+            far = i % 5 != 0
+            if far:    # far corner of the quantifier (scale ~1e3, offset 8..10 diameters), fragile kinds
+                p2, info = gen.c15_simple_polygon(rng, kind=["star", "spiral", "star", "spiral", "convex"][int(rng.integers(5))])
+            else:
+                p2, info = gen.c15_simple_polygon(rng)
             exp = "accept"
         else:
             p2, info = gen.c15_crossing_polygon(rng)
             exp = "reject"
-        sc = 1.0 if rng.random() < 0.4 else float(10 ** rng.uniform(-3, 3))
-        d = gen.diameter(np.c_[p2, np.zeros(len(p2))]) * sc
-        shift = (rng.normal(size=2) * d * float(rng.uniform(0, 10))).tolist() if rng.random() < 0.6 else [0.0, 0.0]
+        if far:
+            sc = float(rng.uniform(600, 1000))
+            d = gen.diameter(np.c_[p2, np.zeros(len(p2))]) * sc
+            u = rng.normal(size=2)
+            shift = (u / np.linalg.norm(u) * d * float(rng.uniform(8, 10))).tolist()
+            ctx.count("is_simple:far-corner")
+        else:
+            sc = 1.0 if rng.random() < 0.4 else float(10 ** rng.uniform(-3, 3))
+            d = gen.diameter(np.c_[p2, np.zeros(len(p2))]) * sc
+            shift = (rng.normal(size=2) * d * float(rng.uniform(0, 10))).tolist() if rng.random() < 0.6 else [0.0, 0.0]
         ctx.count("is_simple:" + exp + ":" + info["kind"])
         yield {"kind": "is_simple", "expect": exp, "p2": p2.tolist(), "scale": sc, "shift": shift, "info": info}
 
@@ -812,7 +827,7 @@ def run(ctx):
     b = ctx.budget
     streams = [
         polygon_cases(ctx, b(70, 1200), b(45, 800), b(40, 600)),
-        is_simple_cases(ctx, b(80, 1500)),
+        is_simple_cases(ctx, b(250, 2500)),
         convex_polygon_cases(ctx, b(1, 6), b(40, 600), b(30, 400), b(30, 400)),
         convex_polyhedron_cases(ctx, b(25, 300), b(25, 300), b(25, 300)),
         curved_cases(ctx, b(40, 600)),
